@@ -355,15 +355,15 @@ def match_finding(f, case):
 # ---- universes (defined in spec/MC_C03.tla, operator Conf) ------------------------------------------
 FAMILIES = {
     'quick': ['q_nest', 'q_pairs', 'q_leaves', 'q_coal1', 'q_coal2', 'q_calls', 'q_modes', 'q_ref',
-              'q_coaln1', 'q_coaln2', 'q_chains', 'q_inspect', 'q_scope', 'q_sets', 'q_top'],
+              'q_coaln1', 'q_coaln2', 'q_chains', 'q_inspect', 'q_scope', 'q_sets', 'q_top', 'q_refscope'],
     'thorough': ['t_nest', 't_nest5', 't_leaves', 't_coal', 't_calls', 't_callnest', 't_modes', 't_ref',
-                 'q_coaln1', 'q_coaln2', 't_chains', 't_inspect', 't_scope', 't_sets', 't_top'],
+                 'q_coaln1', 'q_coaln2', 't_chains', 't_inspect', 't_scope', 't_sets', 't_top', 't_refscope'],
 }
 # wrong mechanism variants (GlomAuto env.mut) and the small universe on which TLC must report
 # the law violated
 MUTANTS = [('tuple_skip_breaks', 'm_chain'), ('coalesce_eager', 'm_coal'), ('dict_stop_skips', 'm_dict'),
            ('invoke_first', 'm_invoke'), ('inspect_twice', 'm_inspect'), ('top_default_any', 'm_top'),
-           ('set_as_list', 'm_set'), ('sset_not_forward', 'm_scope')]
+           ('set_as_list', 'm_set'), ('sset_not_forward', 'm_scope'), ('ref_global', 'm_ref')]
 
 
 def tla_set(names):
